@@ -78,6 +78,8 @@ var c20Snips = []struct {
 	{"strfmt", "strfmt(fmtd, \"%v-%v\", 1, \"a\")\n", false},
 	{"loop", "for i = 0; i < 3; i = i + 1 {\n  add_key(cnt, i)\n}\n", false},
 	{"use", "use(\"lib.p\")\n", false},
+	// literals that span lines: their value contains the file's own line ends
+	{"multiline_literal", "add_key(ml, \"\"\"line one\nline two\n\"\"\")\nadd_key(ml2, '''t1\n  t2''')\n", false},
 	// keys whose names collide with the point's own attributes
 	{"key_named_time", "add_key(time, 1600000000000000000)\n", false},
 	{"keys_named_like_attributes", "add_key(measurement, \"not the measurement\")\nadd_key(name, 5)\nset_tag(time, \"tag called time\")\nadd_key(fields, 1.5)\nadd_key(tags, true)\n", false},
@@ -125,6 +127,15 @@ func (c20) build(c *mon.Ctx) c20Case {
 	}
 	cs.Files["notes.txt"] = "nosuch_function() this is not a script\n"
 	cs.Files["main.p.bak"] = "add_key(from_backup, 1)\n"
+	if r.Intn(4) == 0 {
+		// files saved with CRLF line ends (the scripts are then these very bytes for the library too)
+		for n, t := range cs.Files {
+			if strings.HasSuffix(n, ".p") || strings.HasSuffix(n, ".ppl") {
+				cs.Files[n] = strings.ReplaceAll(t, "\n", "\r\n")
+			}
+		}
+		cs.Features = append(cs.Features, "crlf")
+	}
 	cs.InType = []string{"text", "lineprotocol"}[r.Intn(2)]
 	if cs.InType == "text" {
 		cs.Input = []string{"plain text message", "héllo wörld 12", "", "line1\nline2\n", "  padded  "}[r.Intn(5)]
